@@ -591,7 +591,8 @@ class Interp:
                 frame.env[t.id] = nv
         elif isinstance(t, ast.Attribute):
             base = self.eval(t.value, frame)
-            cur = self.read_attr(base, t.attr)
+            ov = frame.env.get("@self." + t.attr) if self._is_frame_self(base, frame) else None
+            cur = ov if ov is not None else self.read_attr(base, t.attr)
             nv = derived(cur, v)
             self.store_attr(base, t.attr, nv, frame, st, how="aug")
         elif isinstance(t, ast.Subscript):
@@ -650,7 +651,14 @@ class Interp:
         elif isinstance(t, ast.Starred):
             self.assign(t.value, v, frame, st)
 
+    def _is_frame_self(self, base, frame):
+        return frame.self_av is not None and len(base.origins) == 1 and base.origins == frame.self_av.origins
+
     def store_attr(self, base, attr, v, frame, st, how="="):
+        if self._is_frame_self(base, frame):
+            # flow-sensitive overlay for the attributes of the frame's own
+            # object (strong update); the heap keeps the weak, class-wide view
+            frame.env["@self." + attr] = v
         for (root, path) in base.origins:
             self.heap_write(root, path + (attr,), v)
         self.emit("attr_store", st, frame, base=base, attr=attr, value=v, how=how)
@@ -976,7 +984,12 @@ class Interp:
                     if f is not None:
                         return AV(ref=FS([("func", f)]))
         # method reference on an object (bound)
-        res = self.read_attr(base, e.attr)
+        ov = frame.env.get("@self." + e.attr) if self._is_frame_self(base, frame) else None
+        if ov is not None:
+            (root, path), = tuple(base.origins)
+            res = join(AV(origins=FS([(root, path + (e.attr,))])), ov).replace(const=ov.const)
+        else:
+            res = self.read_attr(base, e.attr)
         # bound method refs for later calls through call_func & co.
         meths = self.methods_for(base, e.attr, frame)
         if meths or not res.origins:
@@ -1553,6 +1566,7 @@ class Interp:
                     ne.stack = new_stack + ev.stack[old_ns:]
                     ne.guards = tuple(new_guards) + tuple(ev.guards[old_ng:])
                     self._emit_ev(ne)
+            self._clear_overlay(frame, self_av, is_method)
             return ret
         self.memo[key] = (derived(*args, *kwargs.values()), None, 0, 0)  # provisional (recursion)
         fr = Frame(self, fi, selfcls if is_method else (closure.selfcls if closure else None),
@@ -1570,7 +1584,19 @@ class Interp:
         if ret is None:
             ret = AV(const=None)
         self.memo[key] = (ret, rec, len(new_stack), len(new_guards))
+        self._clear_overlay(frame, self_av, is_method)
         return ret
+
+    def _clear_overlay(self, frame, self_av, is_method):
+        """A callee working on the caller's own object may have re-assigned
+        its attributes: forget the caller's flow-sensitive view."""
+        if frame.self_av is None:
+            return
+        same = is_method and self_av is not None and (self_av.origins & frame.self_av.origins)
+        passed = not is_method  # plain functions may receive self as an argument
+        if same or passed:
+            for k in [k for k in frame.env if k.startswith("@self.")]:
+                del frame.env[k]
 
     def is_static(self, fi):
         for d in fi.node.decorator_list:
